@@ -9,6 +9,7 @@
 import XlVerif.Lemmas.C11Names
 import XlVerif.Lemmas.C11Text
 import XlVerif.Lemmas.C11Addr
+import XlVerif.Lemmas.C11Scan
 namespace XlVerif.Props.C11
 open XlVerif XlVerif.Model.C11 XlVerif.Lemmas.C11
 open XlVerif.Spec.C11 (Text Coord PyVal Stored FTok FForm SCell Sheet Target TargetForm DefName Workbook
@@ -208,6 +209,49 @@ theorem shared_member_formula {wb : Workbook} {ig : List Text} {m : M} (h : load
   injection h1 with h1
   exact h1.symm
 
+/-- A syntactic sufficient condition for the hypothesis `scanOK` of `SheetWF`: formulas written as
+    well-separated tokens (`ToksOK`: text literals without inner quote, single operator characters, function
+    names directly before `(`, names/numbers that do not look like references, bare or quoted sheet
+    prefixes, references that the reference pattern reads back, none glued to the next token) are read
+    back by the scanner token for token. -/
+theorem scan_reads_back (toks : List FTok) (h : ToksOK toks) : scan (renderToks toks) = toks :=
+  scan_render toks h
+
+theorem scanOK_of_separated (cells : List SCell)
+    (h : ∀ c ∈ cells, ∀ toks, (c.formula = some (.plain toks) ∨ ∃ si, c.formula = some (.master si toks)) →
+      ToksOK toks) : scanOK cells = true := by
+  unfold scanOK
+  apply List.all_eq_true.mpr
+  intro c hc
+  split
+  · rename_i toks hf
+    simpa using scan_render toks (h c hc toks (Or.inl hf))
+  · rename_i si toks hf
+    simpa using scan_render toks (h c hc toks (Or.inr ⟨si, hf⟩))
+  · rfl
+
+/-- `SUM('My Sheet'!A1:$B$3)+LEN("A1")*x1.5` is well separated. -/
+example : ToksOK [.lit "SUM".toList, .lit ['('], .pfx "'My Sheet'".toList, .cell false 1 false 1, .lit [':'],
+    .cell true 2 true 3, .lit [')'], .lit ['+'], .lit "LEN".toList, .lit ['('], .lit "\"A1\"".toList, .lit [')'],
+    .lit ['*'], .lit "x1.5".toList] := by
+  refine .cons _ _ (.func 'S' "UM".toList _ (by decide +kernel) (by decide +kernel)) ?_
+  refine .cons _ _ (.sym '(' _ (by decide +kernel) (by decide +kernel) (by decide +kernel)) ?_
+  refine .cons _ _ (.pfxQuoted "My Sheet'".toList "My Sheet".toList _ (by decide +kernel)) ?_
+  refine .cons _ _ (.cell false 1 false 1 'A' ['1'] _ (by decide +kernel) (by decide +kernel) (afterWord_of_head (c := ':') (by decide +kernel) (by decide))
+    (by decide +kernel) (by decide +kernel) (by decide +kernel)) ?_
+  refine .cons _ _ (.sym ':' _ (by decide +kernel) (by decide +kernel) (by decide +kernel)) ?_
+  refine .cons _ _ (.cell true 2 true 3 '$' "B$3".toList _ (by decide +kernel) (by decide +kernel) (afterWord_of_head (c := ')') (by decide +kernel) (by decide))
+    (by decide +kernel) (by decide +kernel) (by decide +kernel)) ?_
+  refine .cons _ _ (.sym ')' _ (by decide +kernel) (by decide +kernel) (by decide +kernel)) ?_
+  refine .cons _ _ (.sym '+' _ (by decide +kernel) (by decide +kernel) (by decide +kernel)) ?_
+  refine .cons _ _ (.func 'L' "EN".toList _ (by decide +kernel) (by decide +kernel)) ?_
+  refine .cons _ _ (.sym '(' _ (by decide +kernel) (by decide +kernel) (by decide +kernel)) ?_
+  refine .cons _ _ (.str "A1".toList _ (by decide +kernel)) ?_
+  refine .cons _ _ (.sym ')' _ (by decide +kernel) (by decide +kernel) (by decide +kernel)) ?_
+  refine .cons _ _ (.sym '*' _ (by decide +kernel) (by decide +kernel) (by decide +kernel)) ?_
+  refine .cons _ _ (.word 'x' "1.5".toList _ (by decide +kernel) (by intro c h; simp [renderToks] at h) (by decide +kernel) (by decide +kernel)) ?_
+  exact .nil
+
 /-! ### `ignored_sheets_contribute_nothing` -/
 
 /-- **ignored_sheets_contribute_nothing.** Every cell of the loaded model is either (address, value and
@@ -306,57 +350,13 @@ theorem names_bound {wb : Workbook} {ig : List Text} {m : M} (h : load wb ig = .
 
 /-! ### `names_bound` against the statement -/
 
-/-- Targets for which the binding is the statement's: the sheet name is non-empty, has none of `$ ! :`, no
-    blank at either end, **no apostrophe** (the guard of finding D1101), and the corners are real
-    coordinates. -/
-def GoodTarget (t : Target) : Prop :=
-  t.sheet ≠ [] ∧ '$' ∉ t.sheet ∧ '!' ∉ t.sheet ∧ ':' ∉ t.sheet ∧ '\'' ∉ t.sheet ∧ strip t.sheet = t.sheet ∧
-  1 ≤ t.c1.col ∧ 1 ≤ t.c1.row ∧ (∀ p, t.snd = some p → 1 ≤ p.2.1.col ∧ 1 ≤ p.2.1.row)
-
-instance (t : Target) : Decidable (GoodTarget t) := by
-  unfold GoodTarget
-  have : Decidable (∀ p, t.snd = some p → 1 ≤ p.2.1.col ∧ 1 ≤ p.2.1.row) := by
-    cases h : t.snd with
-    | none => exact isTrue (by intro p hp; cases hp)
-    | some q =>
-      by_cases hq : 1 ≤ q.2.1.col ∧ 1 ≤ q.2.1.row
-      · exact isTrue (by intro p hp; injection hp with hp; rw [← hp]; exact hq)
-      · exact isFalse (fun hall => hq (hall q rfl))
-  infer_instance
-
-/-- The address `build_defined_names` computes is the statement's address of the target. -/
-theorem normAddress_good (t : Target) (hg : GoodTarget t) :
-    normAddress (Model.C11.Target.text t) = Spec.C11.Target.address t := by
-  obtain ⟨hne, hd, hb, _, ha, hst, _⟩ := hg
-  rw [normAddress_target t hne hd hb (fun _ => ⟨ha, hst⟩)]
-  unfold resolvedSheet restText Spec.C11.Target.address Spec.C11.addr
-  rw [show (if t.quoted = true then doubleApos t.sheet else t.sheet) = t.sheet by
-    split
-    · exact doubleApos_eq_self _ ha
-    · rfl]
-  rcases t.snd with _ | ⟨a, c2, b⟩
-  · simp [bare_eq_coordText]
-  · simp [bare_eq_coordText, List.append_assoc]
-
-theorem targetText_ne_ref (t : Target) (hd : '$' ∉ t.sheet) : Model.C11.Target.text t ≠ "#REF!".toList := by
-  intro e
-  have h1 := filter_target t hd
-  rw [e] at h1
-  have h2 : rsplit1 '!' (sheetPart t ++ '!' :: restText t) = (sheetPart t, restText t) :=
-    rsplit1_of _ _ _ (restText_no_bang t)
-  rw [← h1] at h2
-  have h3 : rsplit1 '!' (("#REF!".toList).filter (· ≠ '$')) = ("#REF".toList, []) := by decide
-  rw [h3] at h2
-  have h4 : restText t = [] := (Prod.mk.inj h2).2.symm
-  unfold restText bare at h4
-  have h5 := (List.append_eq_nil_iff.mp h4).1
-  exact digits_ne_nil t.c1.row (List.append_eq_nil_iff.mp h5).2
-
-/-- **names_bound_spec_partial.**  GOAL (full strength, refuted for this model and for the code — finding
-    D1101, counter-example `aposWb` below): *for every visible defined name with a cell or area target the
-    model's binding is the statement's (`Spec.C11.binding`)*.  Proved: the same for every target whose sheet
-    name has no apostrophe (`GoodTarget`): a name for a loaded cell is bound to that cell of the model, a
-    name for an area is bound to the `XLRange` of that area with exactly the members the statement lists. -/
+/-- **names_bound_spec_partial.**  GOAL (full strength, refuted for this model — counter-example below,
+    `'Cost$'!$A$1`): *for every visible defined name with a cell or area target the model's binding is the
+    statement's (`Spec.C11.binding`)*.  Proved: the same for every target inside `GoodTarget` (sheet name
+    non-empty, without `$`, `!`, `:`, without a blank at either end, not beginning with an apostrophe —
+    apostrophes inside the name are fine since the repair of D1101): a name for a loaded cell is bound to
+    that cell of the model, a name for an area is bound to the `XLRange` of that area with exactly the
+    members the statement lists. -/
 theorem names_bound_spec_partial {wb : Workbook} {ig : List Text} {m : M} (h : load wb ig = .ok m)
     (hwf : ∀ sh ∈ wb.sheets, SheetWF sh) (hn : ((readDefinedNames wb).map Prod.fst).Nodup)
     {d : DefName} (hd : d ∈ wb.names) {t : Target} (ht : d.target = .ref t) (hg : GoodTarget t) :
@@ -463,20 +463,27 @@ example : ((load Examples.exWb []).toOption.map fun m => dkeys m.cells) = some
     ["My Sheet!A1".toList, "My Sheet!B1".toList, "My Sheet!A2".toList, "My Sheet!B2".toList, "S2!A1".toList,
      "My Sheet!A3".toList, "My Sheet!B3".toList] := by decide +kernel
 
-/-! ### D1101: a quoted sheet name keeps its doubled apostrophes -/
+/-! ### D1101 (repaired): a doubled apostrophe in a quoted sheet name stands for one apostrophe -/
 
-/-- kernel-checked counter-example to "a defined name is bound to its cell" (finding D1101): the target
-    `'It''s'!$A$1` is normalised to `It''s!A1`, not to the address `It's!A1` of the stored cell, so the name
-    is dropped although the statement binds it. -/
-example : normAddress (targetText (.ref ⟨"It's".toList, true, true, ⟨1, 1⟩, true, none⟩)) = "It''s!A1".toList := by
+/-- regression examples for finding D1101 (fixed in /repo, commit 076c17f): the target `'It''s'!$A$1` is
+    normalised to the address `It's!A1` of the stored cell and the name is bound as the statement demands.
+    If `resolve_sheet` stops un-doubling, the model changes with the code and these no longer check. -/
+example : normAddress (targetText (.ref ⟨"It's".toList, true, true, ⟨1, 1⟩, true, none⟩)) = "It's!A1".toList := by
   decide +kernel
-example : ((load Examples.aposWb []).toOption.map fun m => dget m.names "ap".toList) = some none
+example : ((load Examples.aposWb []).toOption.map fun m => dget m.names "ap".toList)
+      = some (some (.cell "It's!A1".toList))
     ∧ Spec.C11.bindings Examples.aposWb [] = [("ap".toList, .cell "It's!A1".toList)] := by decide +kernel
 
-
-/-- the guard of `names_bound_spec_partial` is met by the names of an ordinary workbook, and is exactly
-    what the D1101 witness lacks. -/
+/-- the guard of `names_bound_spec_partial` is met by the names of ordinary workbooks, apostrophes
+    included. -/
 example : GoodTarget ⟨"My Sheet".toList, true, true, ⟨1, 1⟩, true, some (true, ⟨2, 3⟩, true)⟩ := by decide +kernel
-example : ¬ GoodTarget ⟨"It's".toList, true, true, ⟨1, 1⟩, true, none⟩ := by decide +kernel
+example : GoodTarget ⟨"It's".toList, true, true, ⟨1, 1⟩, true, none⟩ := by decide +kernel
+
+/-- kernel-checked counter-example to the full-strength goal of `names_bound_spec_partial` (outside the
+    guard): `build_defined_names` drops every `$` of the target text, also those of the sheet name, so
+    `'Cost$'!$A$1` is looked up as `Cost!A1`. -/
+example : ¬ GoodTarget ⟨"Cost$".toList, true, true, ⟨1, 1⟩, true, none⟩ := by decide +kernel
+example : normAddress (targetText (.ref ⟨"Cost$".toList, true, true, ⟨1, 1⟩, true, none⟩)) = "Cost!A1".toList := by
+  decide +kernel
 
 end XlVerif.Props.C11
